@@ -183,6 +183,45 @@ func rawReadRule(c *Ctx, rule string) {
 	p := c.P
 	c.Rule(rule, "the only function that calls a method of the underlying input (the value in reader's own field, or a *bufio.Reader directly) is reader.read: a rune taken from the input anywhere else (a byte-order mark dropped in NewScanner, a look-ahead in the parser) passes no position accounting and is in no token — every later column is off by the runes taken")
 	read := p.SSAFunc(p.Method("reader", "read"))
+	// helpers that nothing but reader.read (or another such helper) calls are part of it
+	callers := map[*ssa.Function]map[*ssa.Function]bool{}
+	for _, fn := range p.allSSAFuncs() {
+		for _, b := range fn.Blocks {
+			for _, in := range b.Instrs {
+				for _, op := range in.Operands(nil) {
+					if callee, ok := (*op).(*ssa.Function); ok && callee.Pkg == fn.Pkg {
+						top := fn
+						for top.Parent() != nil {
+							top = top.Parent()
+						}
+						if callers[callee] == nil {
+							callers[callee] = map[*ssa.Function]bool{}
+						}
+						callers[callee][top] = true
+					}
+				}
+			}
+		}
+	}
+	onlyFrom := map[*ssa.Function]bool{}
+	for changed := true; changed; {
+		changed = false
+		for callee, cs := range callers {
+			if onlyFrom[callee] || callee == read || len(cs) == 0 || callee.Object() == nil || callee.Object().Exported() {
+				continue
+			}
+			all := true
+			for cr := range cs {
+				if cr != read && !onlyFrom[cr] && cr != callee {
+					all = false
+				}
+			}
+			if all {
+				onlyFrom[callee] = true
+				changed = true
+			}
+		}
+	}
 	n := 0
 	var visit func(fn *ssa.Function)
 	visit = func(fn *ssa.Function) {
@@ -214,8 +253,8 @@ func rawReadRule(c *Ctx, rule string) {
 				for top.Parent() != nil {
 					top = top.Parent()
 				}
-				if top == read {
-					c.OK(rule, key, call.Pos(), "inside reader.read")
+				if top == read || onlyFrom[top] {
+					c.OK(rule, key, call.Pos(), "inside reader.read (or a helper only it calls)")
 				} else {
 					c.Bad(rule, key, call.Pos(), "the underlying reader is touched outside reader.read: what is consumed here has no position and belongs to no token")
 				}
@@ -396,10 +435,33 @@ func allMatchesRule(c *Ctx, rule, fname string) {
 				c.OK(rule, key, call.Pos(), "all matches")
 			case strings.HasPrefix(name, "Match"):
 				c.OK(rule, key, call.Pos(), "a yes/no test")
+			case blockInCycle(b):
+				c.Unk(rule, key, call.Pos(), "a first-match method inside a loop: whether the loop resumes after each match until none is left is not evaluated")
 			default:
 				c.Bad(rule, key, call.Pos(), "only the first match is treated: later occurrences keep their password")
 			}
 		}
 	}
 	c.Floor(rule, n, 2)
+}
+
+// blockInCycle: b can reach itself.
+func blockInCycle(b *ssa.BasicBlock) bool {
+	seen := map[*ssa.BasicBlock]bool{}
+	var walk func(x *ssa.BasicBlock) bool
+	walk = func(x *ssa.BasicBlock) bool {
+		for _, s := range x.Succs {
+			if s == b {
+				return true
+			}
+			if !seen[s] {
+				seen[s] = true
+				if walk(s) {
+					return true
+				}
+			}
+		}
+		return false
+	}
+	return walk(b)
 }
